@@ -19,7 +19,7 @@ def corpus():
     if os.path.exists(p):
         out.extend(json.load(open(p)))
     # refactorings written by independent sub-agents (DESIGN §14); ACCEPTED_ALARMS are documented weak spots of the analysis, not of the code
-    for d in ('benign2', 'benign3'):
+    for d in ('benign2', 'benign3', 'benign4'):
         bd = os.path.join(V, 'selftest', d)
         if os.path.isdir(bd):
             for n in sorted(os.listdir(bd)):
